@@ -5,6 +5,9 @@
 (* what it can DO (its capability), derived from signature and body, not   *)
 (* from its name:                                                          *)
 (*   direct      the body applies the tuple constructor `Name(..)`/`Self(..)`*)
+(*               or uses it as a value (`.map(Name)`)                       *)
+(*   writes_field    the body assigns to / mutably borrows `<expr>.0`       *)
+(*   mut_self_param  a parameter (not the receiver) is `&mut Self`/`&mut T` *)
 (*   ret_self    the return type mentions the newtype                       *)
 (*   calls_ctor  the body calls try_new / new                               *)
 (*   recv        "none" | "self" | "&self" | "&mut self"                    *)
@@ -30,7 +33,8 @@ Item(kind, name, vis, recv, trait, flags) ==
    unsafe |-> "unsafe" \in flags, const |-> "const" \in flags, ret_self |-> "ret_self" \in flags,
    ret_mut |-> "ret_mut" \in flags, direct |-> "direct" \in flags, calls_ctor |-> "calls_ctor" \in flags,
    has_unsafe |-> "has_unsafe" \in flags, in_type_impl |-> "in_type_impl" \in flags,
-   field_vis |-> "", for_mut_ref |-> "for_mut_ref" \in flags]
+   field_vis |-> "", for_mut_ref |-> "for_mut_ref" \in flags,
+   writes_field |-> "writes_field" \in flags, mut_self_param |-> "mut_self_param" \in flags]
 
 Fns(items) == {i \in DOMAIN items : items[i].kind = "fn"}
 
@@ -38,7 +42,8 @@ Fns(items) == {i \in DOMAIN items : items[i].kind = "fn"}
 RuleNames == <<"constructor_applied_outside_guarded_constructors", "unsafe_code_in_safe_function",
                "new_unchecked_not_unsafe_or_without_flag_and_feature", "new_unchecked_missing",
                "unexpected_unsafe_function", "mutable_access_to_inner_value", "mutable_view_trait",
-               "inner_field_visible", "helper_function_visible", "hidden_module_visible", "reexport_visibility">>
+               "inner_field_visible", "helper_function_visible", "hidden_module_visible", "reexport_visibility",
+               "inner_field_written_or_mutably_borrowed", "function_takes_mutable_reference_to_the_type">>
 
 Rule(n, cfg, items) ==
   CASE n = 1 -> \* the tuple constructor is applied only inside the guarded constructors and the unsafe escape hatch
@@ -59,6 +64,11 @@ Rule(n, cfg, items) ==
     [] n = 10 -> \A i \in DOMAIN items : (items[i].kind = "mod" /\ items[i].name # "tests") => items[i].vis = ""
     [] n = 11 -> \* re-exports carry exactly the declared visibility
                  \A i \in DOMAIN items : (items[i].kind = "use" /\ items[i].in_type_impl) => items[i].vis = cfg.vis
+    [] n = 12 -> \* nothing writes to the inner field of an existing value or borrows it mutably (`place.0 = ..`, `&mut self.0`)
+                 \A i \in Fns(items) : ~items[i].writes_field
+    [] n = 13 -> \* no generated function receives a mutable reference to a value of the type (e.g. an overridden
+                 \* `Deserialize::deserialize_in_place(de, place: &mut Self)`), which could only serve to change it
+                 \A i \in Fns(items) : ~items[i].mut_self_param
 
 Broken(cfg, items) == {n \in DOMAIN RuleNames : ~Rule(n, cfg, items)}
 ApiOK(cfg, items) == Broken(cfg, items) = {}
